@@ -134,6 +134,7 @@ func (w *world) cfg(seed uint64, profile string) string {
 	r := rand.New(rand.NewPCG(seed, 17))
 	var y, desc string
 	var canaries map[string]string
+	nullEntry := false
 	switch profile {
 	case "yaml": // hand-written text (corpus witnesses): no raw description, the model is not consulted
 		y, desc = w.text, "? ~ ~ ~ ~"
@@ -145,6 +146,7 @@ func (w *world) cfg(seed uint64, profile string) string {
 		legacyMix(rand.New(rand.NewPCG(seed, 99)), c)
 		if rn := rand.New(rand.NewPCG(seed, 101)); rn.IntN(8) == 0 {
 			c.nullKind = 1 + rn.IntN(4)
+			nullEntry = true
 		}
 		y, desc = c.yaml(), c.encode()
 	}
@@ -165,7 +167,9 @@ func (w *world) cfg(seed uint64, profile string) string {
 	tree2, x1, x2 := "-", "-", "-"
 	// applying a configuration builds its routing tree (reloader.reload, api.Update): the loaded configuration is an input of
 	// that, its text afterwards is what it was before
-	built := treeBuildKeepsText(c, str)
+	// the receivers' integrations are built (HTTP clients and all: milliseconds) for hand-written texts, the secrets profile,
+	// configurations with a null integration entry, and every eighth generated one
+	built := treeBuildKeepsText(c, str, profile == "yaml" || profile == "secrets" || nullEntry || seed%8 == 0)
 	if profile == "secrets" {
 		strhex = hex.EncodeToString([]byte(str))
 		var l []string
@@ -199,7 +203,7 @@ var applyTmpl = func() *template.Template {
 }()
 
 // treeBuildKeepsText builds the routing tree of c the way applying it does and reports whether Config.String() still is `before`.
-func treeBuildKeepsText(c *config.Config, before string) (res string) {
+func treeBuildKeepsText(c *config.Config, before string, buildReceivers bool) (res string) {
 	if c.Route == nil {
 		return "-"
 	}
@@ -216,8 +220,10 @@ func treeBuildKeepsText(c *config.Config, before string) (res string) {
 	// … and the integrations of every receiver (reloader.reload: receiver.BuildReceiverIntegrations): an error is a rejected
 	// reload, a panic kills the process.  (Only the panic is looked at: notifier constructors fill defaults into their own
 	// configuration, which the statement about the routing-tree build does not cover.)
-	for _, rc := range c.Receivers {
-		_, _ = receiver.BuildReceiverIntegrations(rc, applyTmpl, promslog.NewNopLogger())
+	if buildReceivers {
+		for _, rc := range c.Receivers {
+			_, _ = receiver.BuildReceiverIntegrations(rc, applyTmpl, promslog.NewNopLogger())
+		}
 	}
 	return res
 }
